@@ -364,12 +364,15 @@ def frame_shape_problem(text):
     return None if ok else "unknown shape %s" % text[:120]
 
 
-async def wire_case(backend, seed, counters, props=("C04", "C06", "C13"), nevents=60):
+async def wire_case(backend, seed, counters, props=("C04", "C06", "C13"), nevents=60, server_mode=None):
+    import websockets
+
     r = random.Random(seed)
     viols, nontrivial, inconcl = [], [], []
     compression = r.choice([None, "deflate"])
     mode = r.choice(["gunicorn", "uvicorn", "uvicorn-ws"])
-    srv = e2e.Server(backend=backend, workers=1, mode="uvicorn" if mode.startswith("uvicorn") else "gunicorn", overrides={"message_timeout": 4})
+    mode = server_mode or mode
+    srv = e2e.Server(backend=backend, workers=1, mode="uvicorn" if mode.startswith("uvicorn") else "gunicorn", overrides={})
     if mode == "uvicorn-ws":
         # uvicorn's `websockets` implementation - the one the repository's monkeypatch (compression factory) applies to
         compression = "deflate"
@@ -500,22 +503,6 @@ async def wire_case(backend, seed, counters, props=("C04", "C06", "C13"), nevent
                 continue
             if not subm.deep_equal(got, ev):
                 V("C04", "not-verbatim/http", "GET /e/%s differs from what was accepted: %s vs %s" % (eid[:12], json.dumps(got)[:200], json.dumps(ev)[:200]))
-        # --- a connection with an open subscription that stays silent until the relay gives up on it (message_timeout 4 s):
-        # whatever the relay writes before it closes is a frame of a known shape
-        idle = await e2e.Client(srv, "idle", compression=compression).connect()
-        conns.append(idle)
-        await idle.send(["REQ", "idle-sub", {"kinds": kinds or [1], "limit": 2}])
-        t_idle = time.time()
-        while idle.closed is None and time.time() - t_idle < 15:
-            await asyncio.sleep(0.25)
-        bump(counters, "e2e_idle_timeouts")
-        if idle.closed is None:
-            inconcl.append("e2e wire: the idle connection was not closed 15 s after message_timeout 4")
-        for n, t in idle.frames:
-            bump(counters, "e2e_frames_checked")
-            pb = frame_shape_problem(t)
-            if pb:
-                V("C04", "frame-malformed/at-timeout", "frame %r written to a connection that was timing out: %s" % (t[:150] if isinstance(t, str) else t[:60], pb))
         st, hd, body = srv.http_get("/", {"Accept": "application/nostr+json"})
         try:
             doc = json.loads(body)
@@ -527,10 +514,42 @@ async def wire_case(backend, seed, counters, props=("C04", "C06", "C13"), nevent
         if probs:
             V("C04", "server-log", "the server's log shows: %s" % " | ".join(probs[:3]))
             V("C13", "server-log", "the server's log shows: %s" % " | ".join(probs[:3]))
+    except websockets.exceptions.ConnectionClosed as e:
+        # the CLIENT library ends a connection with 1002 / 1007 when it cannot make sense of what the server wrote
+        # (a frame that does not inflate, text that is not UTF-8): that is a frame that does not parse
+        sent = getattr(e, "sent", None)
+        code = getattr(sent, "code", None)
+        if code in (1002, 1007):
+            V("C04", "frame-undecodable", "the websocket client had to end a connection with %s (%s): a frame the relay wrote could not be decoded" % (code, getattr(sent, "reason", "")))
+        else:
+            inconcl.append("e2e wire: a connection ended unexpectedly (%r)" % (e,))
     finally:
         for c in conns:
             await c.close()
         srv.stop()
+    if "C04" in props:
+        # --- a server of its own with message_timeout 3 s: a connection with an open subscription stays silent until the relay
+        # gives up on it; whatever the relay writes before it closes is a frame of a known shape
+        srv2 = e2e.Server(backend=backend, workers=1, mode=srv.mode, overrides={"message_timeout": 3})
+        srv2.start()
+        try:
+            idle = await e2e.Client(srv2, "idle", compression=compression if mode != "uvicorn-ws" else None).connect()
+            await idle.send(["REQ", "idle-sub", {"kinds": [1], "limit": 2}])
+            await idle.send(["REQ", "idle-sub2", {"kinds": [7]}])
+            t_idle = time.time()
+            while idle.closed is None and time.time() - t_idle < 15:
+                await asyncio.sleep(0.25)
+            bump(counters, "e2e_idle_timeouts")
+            if idle.closed is None:
+                inconcl.append("e2e wire: the idle connection was not closed 15 s after message_timeout 3")
+            for n, t in idle.frames:
+                bump(counters, "e2e_frames_checked")
+                pb = frame_shape_problem(t)
+                if pb:
+                    viols.append({"key": "e2e/%s/frame-malformed/at-timeout" % backend, "msg": "[e2e %s %s] frame %r written to a connection that was timing out: %s" % (backend, srv2.mode, t[:150] if isinstance(t, str) else t[:60], pb), "replay": rp})
+            await idle.close()
+        finally:
+            srv2.stop()
     return viols, nontrivial, inconcl
 
 
@@ -953,7 +972,7 @@ def run_e2e_shard(prop, spec):
         v, nt, inc = run(c15_case, backend, spec.get("workers", 3), seed, counters)
         main = "e2e_challenges"
     elif case == "wire":
-        v, nt, inc = run(wire_case, backend, seed, counters, props=(prop,), nevents=spec.get("nevents", 60))
+        v, nt, inc = run(wire_case, backend, seed, counters, props=(prop,), nevents=spec.get("nevents", 60), server_mode=spec.get("server_mode"))
         main = "e2e_frames_checked"
     elif case == "restart":
         v, nt, inc = run(restart_case, backend, seed, counters, nevents=spec.get("nevents", 120), during_burst=spec.get("during_burst", False))
